@@ -172,8 +172,20 @@ func (env *SpecEnv) evalLazy(e Expr) specVal {
 			return env.eval(x.X)
 		}
 		o := *env.old
-		o.vars = env.vars // quantified variables remain visible
+		merged := map[string]specVal{}
+		for k, v := range env.old.vars {
+			merged[k] = v
+		}
+		for k, v := range env.vars {
+			if _, had := merged[k]; !had || v.v != nil && v.v.T != nil && v.v.T.isVar {
+				merged[k] = v // quantified variables (and names unknown to the old environment) remain visible
+			}
+		}
+		o.vars = merged
 		o.lets = env.lets
+		if o.resolve == nil {
+			o.resolve = env.resolve
+		}
 		return o.evalLazy(x.X)
 	case *EUnary:
 		switch x.Op {
